@@ -66,8 +66,7 @@ Proof.
   { intros b Hb. unfold is_crlf.
     destruct (b =? 13) eqn:E1; [apply N.eqb_eq in E1; subst; contradiction|].
     destruct (b =? 10) eqn:E2; [apply N.eqb_eq in E2; subst; contradiction|]. reflexivity. }
-  unfold trim_crlf, rev'. rewrite <- !rev_alt.
-  rewrite (trim_left_id s F). rewrite trim_left_id.
+  unfold trim_crlf, rev'. rewrite <- !rev_alt. rewrite (trim_left_id s F). rewrite trim_left_id.
   - apply rev_involutive.
   - intros b Hb. apply F. apply (proj2 (in_rev s b) Hb).
 Qed.
